@@ -373,6 +373,13 @@ def run_check(pid, tier, seed, jobs=None, budget_scale=1.0):
                                "id": kf[0].get("id")})
             print(f"KNOWN-FINDING: property={pid} clause={viol['clause']} ctx={viol['ctx']} "
                   f"id={kf[0].get('id')} runs={v['count']} :: {kf[0].get('what', '')}")
+            if os.environ.get("VERIF_WRITE_KF_REPLAYS"):
+                # maintenance aid (never on in registered commands): a current replay of the listed finding, to refresh
+                # known_findings/<id>.replay.json by hand after the library's line numbers moved
+                chk = _still_fails(mod, v["scenario"], v["choices"], key, fresh=True)
+                if chk:
+                    kp = write_replay(pid, seed, v["scenario"], v["choices"], chk[1], chk[0].digest)
+                    print(f"  current replay of {kf[0].get('id')}: {kp}")
             continue
         new_violations += 1
         sc, ch = v["scenario"], v["choices"]
